@@ -259,6 +259,25 @@ impl<'a, 'tcx> Cx<'a, 'tcx> {
                         Some(mir::interpret::GlobalAlloc::Function { instance }) => {
                             o.push(("fnptr", s(dps(tcx, instance.def_id()))))
                         }
+                        Some(mir::interpret::GlobalAlloc::Memory(a)) => {
+                            // byte-string literals: &[u8; N]
+                            let is_bytes = match ty.kind() {
+                                ty::Ref(_, inner, _) => match inner.kind() {
+                                    ty::Array(et, _) => et.is_integral() && tys(*et) == "u8",
+                                    _ => false,
+                                },
+                                _ => false,
+                            };
+                            if is_bytes {
+                                let al = a.inner();
+                                let (_, off) = ptr.into_raw_parts();
+                                let start = off.bytes() as usize;
+                                if start <= al.len() && al.provenance().ptrs().is_empty() {
+                                    let bytes = al.inspect_with_uninit_and_ptr_outside_interpreter(start..al.len());
+                                    o.push(("bytes", J::Arr(bytes.iter().map(|b| J::Int(*b as i128)).collect())));
+                                }
+                            }
+                        }
                         _ => {}
                     }
                 }
